@@ -361,14 +361,18 @@ def emit_label_dict(b: Builder, ld) -> Any:
     d: Dict[str, Any] = {}
     if ld.get("type"):
         d["Type"] = "PageLabel"
+    vind = ld.get("vind", "")     # which values are written as indirect objects (7.3.10: any object may be)
+    if ld.get("junk"):
+        return 7      # not a dictionary at all (wild)
     if ld.get("S") is not None:
         d["S"] = Name(ld["S"].encode("latin-1"))
     if ld.get("P") is not None:
         d["P"] = pdf_string(ld["P"], ld.get("hexstr", False))
     if ld.get("St") is not None:
         d["St"] = ld["St"]
-    if ld.get("junk"):
-        return 7      # not a dictionary at all (wild)
+    for key, flag in (("S", "s"), ("P", "p"), ("St", "n")):
+        if key in d and flag in vind:
+            d[key] = b.add(d[key])
     return b.add(d) if ld.get("ind") else d
 
 
@@ -377,12 +381,13 @@ def emit_numtree(b: Builder, node) -> Any:
     if node.get("nums") is not None:
         arr: List[Any] = []
         for k, v in node["nums"]:
-            arr += [k, emit_label_dict(b, v)]
+            arr += [b.add(k) if node.get("kind") else k, emit_label_dict(b, v)]
         if node.get("dangling") is not None:
             arr.append(node["dangling"])
-        d["Nums"] = arr
+        d["Nums"] = b.add(arr) if node.get("aind") else arr
     if node.get("kids") is not None:
-        d["Kids"] = [emit_numtree(b, c) for c in node["kids"]]
+        kids = [emit_numtree(b, c) for c in node["kids"]]
+        d["Kids"] = b.add(kids) if node.get("aind") else kids
     if node.get("limits"):
         ks = [k for k, _ in flatten_num(node)]
         if ks:
@@ -418,15 +423,21 @@ def val_canon(b: Optional[Builder], v, npages: int) -> str:
 
 def emit_nametree(b: Builder, node) -> Any:
     d: Dict[str, Any] = {}
+    kind = node.get("kind")       # key strings (and Limits entries) written as indirect objects
     if node.get("limits") is not None:
-        d["Limits"] = [unh(node["limits"][0]), unh(node["limits"][1])]
+        lim = [unh(node["limits"][0]), unh(node["limits"][1])]
+        d["Limits"] = [b.add(x) for x in lim] if kind else lim
+        if node.get("aind"):
+            d["Limits"] = b.add(d["Limits"])
     if node.get("names") is not None:
         arr: List[Any] = []
         for k, v in node["names"]:
-            arr += [pdf_string(k, node.get("hexstr", False)), emit_dest_value(b, v)]
-        d["Names"] = arr
+            ks = pdf_string(k, node.get("hexstr", False))
+            arr += [b.add(ks) if kind else ks, emit_dest_value(b, v)]
+        d["Names"] = b.add(arr) if node.get("aind") else arr
     if node.get("kids") is not None:
-        d["Kids"] = [emit_nametree(b, c) for c in node["kids"]]
+        kids = [emit_nametree(b, c) for c in node["kids"]]
+        d["Kids"] = b.add(kids) if node.get("aind") else kids
     return b.add(d) if node.get("ind") else d
 
 
@@ -451,12 +462,19 @@ def emit_outlines(b: Builder, case) -> None:
         b.outline_ids += [r.n for r in refs]
         for i, it in enumerate(items):
             d: Dict[str, Any] = {"Parent": parent}
+            vind = it.get("vind", "")
             if it.get("t") is not None:
                 d["Title"] = pdf_string(it["t"], it.get("hexstr", False))
+                if "t" in vind:
+                    d["Title"] = b.add(d["Title"])
             if it.get("d") is not None:
                 d["Dest"] = emit_outline_dest(b, it["d"])
+                if "d" in vind:
+                    d["Dest"] = b.add(d["Dest"])
             if it.get("a") is not None:
                 d["A"] = {"S": "GoTo", "D": emit_outline_dest(b, it["a"])}
+                if "a" in vind:
+                    d["A"] = b.add(d["A"])
             if it.get("se"):
                 d["SE"] = {"Type": "StructElem", "S": "H1", "K": it["se"]}
             if i > 0:
@@ -484,10 +502,11 @@ def emit_outlines(b: Builder, case) -> None:
 
 # ----------------------------------------------------------------------------- implementation adapters
 
-def open_doc(pdf: bytes):
+def open_doc(pdf: bytes, case=None):
+    """`case["nocache"]`: the rarely used PDFDocument(caching=False) - every reference is parsed again on each use."""
     from pdfminer.pdfdocument import PDFDocument
     from pdfminer.pdfparser import PDFParser
-    return PDFDocument(PDFParser(BytesIO(pdf)))
+    return PDFDocument(PDFParser(BytesIO(pdf)), caching=not (case or {}).get("nocache", False))
 
 
 def labels_pdf(case) -> bytes:
@@ -525,7 +544,7 @@ def _page_labels(doc) -> List[str]:
 def impl_labels(case, count: int) -> Tuple[List[str], List[str]]:
     """(first `count` results of get_page_labels(), PDFPage.label of every page) observed on ONE PDFDocument,
     canonical; an exception ends the list with E:<type>."""
-    doc = open_doc(labels_pdf(case))
+    doc = open_doc(labels_pdf(case), case)
     out = _take(doc.get_page_labels, count)
     return out, _page_labels(doc)
 
@@ -536,7 +555,7 @@ def labels_history(case, count: int) -> Optional[Tuple[str, List[str], List[str]
     first pass, None when all agree."""
     from pdfminer.pdfpage import PDFPage
     pdf = labels_pdf(case)
-    doc = open_doc(pdf)
+    doc = open_doc(pdf, case)
     npages = case["npages"]
     first = _take(doc.get_page_labels, count)
     if first == ["E:PDFNoPageLabels"]:
@@ -678,8 +697,10 @@ def canon_w(o) -> str:
 def sx_outline_graph(b: Builder, it: "Intern") -> Tuple[int, str]:
     """The outline dictionaries as an object graph (id, Title, Dest, A.D, SE, First, Last?, Next)."""
     parts = []
+    def deref(o):
+        return b.objs[o.n] if isinstance(o, Ref) else o
     for n in b.outline_ids:
-        d = b.objs[n]
+        d = {k: (deref(v) if k in ("Title", "Dest", "A") else v) for k, v in b.objs[n].items()}
         t = d.get("Title")
         tb = None if t is None else (t.b if isinstance(t, HexStr) else t)
         parts.append("(%d %s %s %s %s %s %s %s)" % (
@@ -722,7 +743,7 @@ def _outline_list(doc, cap: int) -> List[str]:
 
 def impl_outline(case) -> List[str]:
     b = outline_builder(case)
-    doc = open_doc(b.pdf())
+    doc = open_doc(b.pdf(), case)
     return _outline_list(doc, len(b.outline_ids) + 2)      # every dictionary yields at most one item
 
 
@@ -730,7 +751,7 @@ def outline_history(case) -> Optional[Tuple[str, List[str], List[str]]]:
     """get_outlines() several times on ONE PDFDocument: again after a full pass, after an abandoned partial pass,
     and two generators consumed alternately.  (what, expected, got) for the first difference, else None."""
     b = outline_builder(case)
-    doc = open_doc(b.pdf())
+    doc = open_doc(b.pdf(), case)
     cap = len(b.outline_ids) + 2
     first = _outline_list(doc, cap)
     second = _outline_list(doc, cap)
@@ -782,7 +803,7 @@ def query_key(q):
 def impl_dests(case) -> List[str]:
     from pdfminer.pdfdocument import PDFDestinationNotFound
     from pdfminer.pdftypes import resolve1
-    doc = open_doc(names_pdf(case))
+    doc = open_doc(names_pdf(case), case)
     out = []
     for q in case["queries"]:
         key = query_key(q)
@@ -800,7 +821,7 @@ def dests_history(case) -> Optional[Tuple[str, List[str], List[str]]]:
     """The same queries again, in reverse order, on the SAME PDFDocument: a lookup must not depend on earlier ones."""
     from pdfminer.pdfdocument import PDFDestinationNotFound
     from pdfminer.pdftypes import resolve1
-    doc = open_doc(names_pdf(case))
+    doc = open_doc(names_pdf(case), case)
 
     def ask(q) -> str:
         try:
@@ -992,6 +1013,8 @@ def gen_label_dict(rng, wild: bool) -> Dict[str, Any]:
     if wild and rng.random() < 0.03:
         ld = {"junk": True, "S": None, "P": None, "St": None}     # the value is not a dictionary
     ld["ind"] = rng.random() < 0.3
+    if rng.random() < 0.25:
+        ld["vind"] = "".join(c for c in "spn" if rng.random() < 0.6)
     ld["type"] = rng.random() < 0.3
     ld["hexstr"] = rng.random() < 0.3
     return ld
@@ -1002,10 +1025,12 @@ def shape_tree(rng, entries: List[Any], field: str, mode: Optional[str] = None, 
     mode = mode or rng.choice(["leaf", "balanced", "balanced", "chain", "comb", "random", "random", "wide"])
 
     def leaf(es):
-        return {field: list(es), "kids": None, "ind": rng.random() < 0.6}
+        return {field: list(es), "kids": None, "ind": rng.random() < 0.6, "kind": rng.random() < 0.15,
+                "aind": rng.random() < 0.15}
 
     def inner(kids):
-        return {field: None, "kids": kids, "ind": rng.random() < 0.6}
+        return {field: None, "kids": kids, "ind": rng.random() < 0.6, "kind": rng.random() < 0.15,
+                "aind": rng.random() < 0.15}
 
     if mode == "leaf" or depth > 40:
         return leaf(entries)
@@ -1063,6 +1088,7 @@ def gen_labels_case(rng, wild: bool) -> Dict[str, Any]:
             left -= max(1, g)
         case["pgroups"] = groups
     case["subset"] = sorted(rng.sample(range(npages), rng.randint(1, min(npages, 4))))
+    case["nocache"] = rng.random() < 0.25
     case["split"] = rng.randint(0, npages + 2)
     if wild:
         r = rng.random()
@@ -1170,6 +1196,7 @@ def gen_names_case(rng, wild: bool) -> Dict[str, Any]:
     if rng.random() < 0.05:
         case["names_cat_missing"] = True
     case["names_ind"] = rng.random() < 0.5
+    case["nocache"] = rng.random() < 0.25
     if rng.random() < 0.5:
         dn = {rng.choice(["foo", "bar", "sec1", "a", "A", "chapter.1", "b"]) + rng.choice(["", "", "x"]): None
               for _ in range(rng.randint(0, 4))}
@@ -1236,6 +1263,8 @@ def gen_outline_item(rng, tag: List[int], wild: bool) -> Dict[str, Any]:
         it["hexstr"] = True
     if rng.random() < 0.2:
         it["closed"] = True
+    if rng.random() < 0.2:
+        it["vind"] = "".join(c for c in "tda" if rng.random() < 0.6)
     if wild:
         r = rng.random()
         if r < 0.15:
@@ -1319,6 +1348,7 @@ def gen_outline_case(rng, wild: bool, special: Optional[str] = None) -> Dict[str
         case["no_outlines"] = True
         return case
     case["forest"] = gen_forest(rng, rng.choice([1, 2, 4, 8, 15, 30]), 0, tag, wild, rng.choice([0, 1, 3, 6]))
+    case["nocache"] = rng.random() < 0.25
     return case
 
 
@@ -1711,10 +1741,12 @@ def shrink_names(case, q) -> Dict[str, Any]:
         # two-level tree with tight limits, then fewer keys
         flat = [[h(k), v[:4] + [False]] for k, v in flatten_names(tree)]
 
+        kind = any(nd.get("kind") for nd in all_nodes(tree))
+
         def two_level(entries, root_limits):
             if not entries:
                 return None
-            leaf = {"names": entries, "kids": None, "ind": False}
+            leaf = {"names": entries, "kids": None, "ind": False, "kind": kind}
             root = {"names": None, "kids": [leaf], "ind": False}
             set_tight_limits(root)
             if root_limits:
